@@ -127,18 +127,19 @@ PROPS['C09'] = {
 
 PROPS['C20'] = {
     'level': 'other',
-    'units': ['C19/qgrams'],
+    'units': ['C20/orf', 'C19/qgrams'],
     'kani': [
         {'name': 'dna_complement', 'crate': 'alphabets', 'harness': 'dna_complement_all_bytes', 'timeout': 1200, 'obligation': 'dna::complement: involution, case preserving, identity outside the IUPAC table, lower-case twin, Watson-Crick pairs; all 256 bytes'},
         {'name': 'rna_complement', 'crate': 'alphabets', 'harness': 'rna_complement_all_bytes', 'timeout': 1200, 'obligation': 'rna::complement: the same over the RNA table'},
     ],
     'oracle': 'C20',
-    'decided': ['RankTransform::new / get (unit shared with C19): the rank transform is an order-preserving bijection onto 0..|A| (rank r goes to the r-th smallest symbol)', 'dna::complement and rna::complement (through the real lazy_static tables): involution on all 256 bytes, case preserved, bytes outside the IUPAC table unchanged, lower-case entries mirror upper-case ones (complete over the byte domain)'],
-    'undecided': ['ORF finder (VecDeque sliding window; not under contract)', 'Alphabet::{new, is_word, max_symbol, len} (closure adapter chains over bit_set)', 'gc_content (f32)', 'revcomp iterator chain (rev/map/collect: std adapter semantics)'],
-    'trusted': ['Kani/CBMC'],
-    'level_text': 'Complete Kani proofs over the whole byte domain for the two complement tables; the ORF finder, alphabets and GC content are not decided by this check.',
+    'decided': ['ORF finder (Verus, unbounded; State::new, Finder::find_all, Matches::next on the real code): define a reportable frame declaratively (starts with a configured start codon, ends with an in-frame stop codon, no in-frame stop codon in between, length a multiple of three and more than min_len + 2, offset = start mod 3); find_all leaves exactly the reportable frames of the sequence to report; every next() returns the least (end, start) frame still to report and removes exactly that one; None is returned only when nothing is left - hence every reportable frame is reported exactly once, in order, and nothing else is (pending-start lists characterised per frame: sound, ascending, complete; queue sound/complete for the frames ending at the current position)',
+                'RankTransform::new / get (unit shared with C19): the rank transform is an order-preserving bijection onto 0..|A| (rank r goes to the r-th smallest symbol)', 'dna::complement and rna::complement (through the real lazy_static tables): involution on all 256 bytes, case preserved, bytes outside the IUPAC table unchanged, lower-case entries mirror upper-case ones (complete over the byte domain)'],
+    'undecided': ['Finder::new (iterator/collect code building the 3-symbol codon deques; find_all takes well-formed codons as precondition)', 'Alphabet::{new, is_word, max_symbol, len} (closure adapter chains over bit_set)', 'gc_content (f32)', 'revcomp iterator chain (rev/map/collect: std adapter semantics)'],
+    'trusted': ['Kani/CBMC', 'std specs used by the ORF unit: VecDeque::{is_empty} + vstd VecDeque model, [T]::contains over an uninterpreted element equality with ONE ADMITTED AXIOM equating it with sequence equality for VecDeque<u8>, Enumerate<slice::Iter> model and the enumerate_slice stub (generic sequence iterator instantiated at &[u8])'],
+    'level_text': 'Verus proves the ORF finder reports exactly the frames of the declarative definition, each once and in order, for all inputs; complete Kani proofs over the whole byte domain for the two complement tables; rank transform proved (shared unit); alphabet membership and GC content are not decided by contracts.',
     'level_note': 'Level other (partial). Trusted: Kani 0.68/CBMC 6.11.',
-    'technique': 'loop-free Kani (CBMC) proof harness over the real lazy_static tables, exhaustive over u8',
+    'technique': 'Verus contracts on the real ORF finder code (mechanical mirror) + loop-free Kani (CBMC) proof harness over the real lazy_static tables, exhaustive over u8',
 }
 
 PROPS['C19'] = {
